@@ -15,7 +15,7 @@ import sx
 from checks import docs, loadlib, reflib as R, refprobe as P
 
 PROP = 'C10'
-TARGETS = ['theories/Proofs/CleanupProofs.v', 'theories/Run/RunC10.v']
+TARGETS = ['theories/Proofs/CleanupProofs.v', 'theories/Proofs/CleanupIdemProofs.v', 'theories/Run/RunC10.v']
 PRUNED = ('GROUP', 'FUNCTION', 'CM', 'CT', 'UNIT', 'RL')
 OBJ_TYPES = ['AxisPts', 'Blob', 'Characteristic', 'Instance', 'Measurement']
 TAB_TYPES = ['CompuTab', 'CompuVtab', 'CompuVtabRange']
